@@ -108,6 +108,45 @@ fn paths_nth(i: u64, pool: &[Step], data: &RV, len: usize) -> Option<PathCase> {
     Some(PathCase { e: Expr::Var(Var { root: BASES[d[0] as usize].into(), steps }), data: data.clone() })
 }
 
+// ---- a path is resolved in the innermost binding of its root: when assign / capture / a loop
+// variable rebinds a name that the caller's data binds to an object, a step missing in the new
+// value is an error even though the shadowed object has it
+
+#[derive(Clone, Debug, Serialize, Deserialize)]
+pub struct Shadowed {
+    pub nodes: Vec<Node>,
+}
+
+fn shadowed_paths() -> Vec<Shadowed> {
+    let out = |keys: &[&str]| Node::Out { e: Expr::path("x", keys), filters: vec![], t: Tr::PLAIN };
+    let mut v = Vec::new();
+    for keys in [&["a"][..], &["a", "b"], &["c"], &["size"], &["first"]] {
+        for rebind in 0..6 {
+            let probe = vec![Node::Text("<".into()), out(keys), Node::Text(">".into())];
+            let nodes = match rebind {
+                0 => vec![Node::Assign { name: "x".into(), e: Expr::str("s"), filters: vec![], t: Tr::PLAIN }].into_iter().chain(probe).collect(),
+                1 => vec![Node::Assign { name: "x".into(), e: Expr::var("other"), filters: vec![], t: Tr::PLAIN }].into_iter().chain(probe).collect(),
+                2 => vec![Node::Capture { name: "x".into(), body: vec![Node::Text("cap".into())], open: Tr::PLAIN, close: Tr::PLAIN }].into_iter().chain(probe).collect(),
+                3 => vec![Node::For { var: "x".into(), coll: Coll::Expr(Expr::var("items")), limit: None, offset: None, reversed: false, body: probe, else_: None, open: Tr::PLAIN, close: Tr::PLAIN }],
+                4 => vec![Node::Assign { name: "x".into(), e: Expr::int(5), filters: vec![], t: Tr::PLAIN }, Node::If { arms: vec![(Cond::lit(true), probe, Tr::PLAIN)], else_: None, close: Tr::PLAIN }],
+                _ => probe,
+            };
+            v.push(Shadowed { nodes });
+        }
+    }
+    v
+}
+
+fn shadowed_oracle(c: &Shadowed, obs: &mut Obs) -> Check {
+    obs.nt(&print(&c.nodes));
+    let data = obj(vec![
+        ("x", obj(vec![("a", obj(vec![("b", st("outer-ab"))])), ("c", st("outer-c"))])),
+        ("other", obj(vec![("c", st("other-c"))])),
+        ("items", RV::Arr(vec![obj(vec![("c", st("item-c"))])])),
+    ]);
+    differential(&c.nodes, &data, &[], obs, "path(shadowed root)")
+}
+
 // ---- string literals whose content begins or ends with the *other* quote character, in every
 // position a literal can stand: printed, as a filter argument, as a bracket key, in a comparison
 
@@ -268,6 +307,7 @@ pub fn run(ctx: &Ctx) {
         let (pool, data) = (&pool, &data);
         ctx.strided("paths_len4_slice", b * n.pow(4), ctx.pick(61, 2), move |i| paths_nth(i, pool, data, 4), path_oracle);
     }
+    ctx.cases("shadowed_paths", shadowed_paths(), shadowed_oracle);
     ctx.cases("int_literals", int_literals(), lit_oracle);
     ctx.cases("quote_edge_literals", quote_edge_cases(), quote_edge_oracle);
     ctx.random("literals", ctx.pick(200_000, 5_000_000), || {
